@@ -1,6 +1,8 @@
-"""C01 - field arithmetic mod p = 2^255 - 19.  NOT decided: that the limb kernels (mul, square, pow2k, reduce, as_bytes)
-compute the exact value - a statement about numerical results over 2^510 input pairs.  Decided here (each a necessary
-condition of the statement), for the serial u64 and u32 backends (the chains are shared by every backend):
+"""C01 - field arithmetic mod p = 2^255 - 19.  Decided here (each a necessary condition of the statement), for the serial u64 and u32
+backends and the AVX2 vector backend (the chains are shared by every backend); NOT decided: the IFMA kernels and the fiat primitives:
+
+ KERNEL   the serial limb kernels and the AVX2 vector kernels (mul, square, reduce, negate, add, diff_sum, small-constant mul, new, split; shuffle / blend
+          for every control value) are value-exact modulo p on symbolic limbs (polynomial limb domain, lib/eng_limbpoly.py / eng_lanepoly.py).
 
  CHAIN    invert = x^(p-2), pow_p58 = x^((p-5)/8), pow22501 = (x^(2^250-1), x^11); the candidate root of sqrt_ratio_i is
           u^((p+3)/8) * v^(3+7(p-5)/8) and its check value is v*r^2 (monomial domain, lib/eng_expchain.py).
@@ -21,7 +23,7 @@ import oracle as O
 import ex
 
 LEVEL = "other"
-TECHNIQUE = ("LIMBPOLY (polynomials over limb symbols, opaque carry quotients) for the serial limb kernels; BITS (bit provenance, carry-chain tokens) for from_bytes / as_bytes; "
+TECHNIQUE = ("LIMBPOLY (polynomials over limb symbols, opaque carry quotients) for the serial limb kernels and, lane-wise with structural bounds (LANEPOLY), the AVX2 vector kernels; BITS (bit provenance, carry-chain tokens) for from_bytes / as_bytes; "
              "FORMULA domain for batch_invert (all zero / non-zero patterns); EXPCHAIN monomial abstract domain over the addition chains + literal limb-vector arithmetic against p + ABSINT interval post-conditions of "
              "the byte codecs, over resolved MIR of the serial u64 / u32 (and, for the shared chains, fiat) backends")
 
@@ -44,8 +46,8 @@ def run(tier, R):
         cfgs += [("fiat64", "release", "u64"), ("fiat32", "release", "u32"), ("serial64", "release", "u64")]
     FS = ctx.facts_for(R, [(c, m) for c, m, _ in cfgs])
     R.trust("rustc MIR; mirfacts; lib/eng_expchain.py transfer functions (mul adds exponents, square doubles, pow2k(k) multiplies by 2^k); lib/absint.py for RANGE")
-    R.note("NOT decided: value-exactness of the vector (AVX2, IFMA) field kernels and of the fiat primitives; the serial kernels are decided value-exact modulo p by C01.kernel "
-           "under the no-wrap obligations of C11")
+    R.note("NOT decided: value-exactness of the IFMA vector field kernels and of the fiat primitives; the serial kernels (C01.kernel) and the AVX2 vector kernels (C01.vkernel) are "
+           "decided value-exact modulo p under the no-wrap obligations of C11")
     R.note("NOWRAP is C11 (every overflow obligation of the field kernels, serial u64 + u32)")
     for cfg, mode, backend in cfgs:
         F = FS.get((cfg, mode))
@@ -66,6 +68,12 @@ def run(tier, R):
                 nk += 1 if f_ else 0
                 (R.ok if ok else R.viol)("C01.kernel", I(inst), msg, *(() if ok else (F.loc(f_) if f_ else "",)))
             R.floor("C01.kernel", I("field kernels decided value-exact modulo p"), nk, 9)
+            if cfg == "simd":
+                nv = 0
+                for inst, f_, ok, msg in KR.vector_kernels(F):
+                    nv += 1 if f_ else 0
+                    (R.ok if ok else R.viol)("C01.vkernel", I(inst), msg, *(() if ok else (F.loc(f_) if f_ else "",)))
+                R.floor("C01.vkernel", I("AVX2 vector field kernels decided (10 kernels, 10 shuffles, 8 blends)"), nv, 28)
             ne = 0
             for inst, f_, ok, msg in CR.field_encode(F):
                 ne += 1
